@@ -170,7 +170,7 @@ def run_case(case):
     if v and known:
         # re-judge with the measured excess of the known Krylov defect added to the budget (global error <= sum of local errors)
         um = "start"
-        v2, w2, c2 = e2e.compare_results(results, snap, states, hams, state_tol=state_tol + excess, obs_tol=state_tol + excess,
+        v2, w2, c2 = e2e.compare_results(results, snap, states, hams, state_tol=state_tol + excess, obs_tol=state_tol + 2 * excess,  # |<O>_a - <O>_b| <= 2*|O|*|a-b| for unit vectors
                                          alt_hams=[e2e.step_hamiltonian(snap, k, "mid") for k in range(nsteps)] if straddle else None)
         if not v2:
             viol.append({"key": "C01:krylov-early-stop-exceeds-tolerance",
